@@ -116,6 +116,43 @@ func $NC(a int) (res int) {
 	}
 	return res*1000 + v
 }`, entries: []*Entry{callEntry("$NC", 1, nil)}},
+	// the body declares the loop variable again TOGETHER WITH a new name (legal next to the first declaration, so a
+	// lowering that puts both into one scope still builds) after closures captured the range variable
+	{name: "range-define-redeclared-with-new-name-after-capture", decls: baseGen + `
+func $NC(a int) (res int) {
+	for v := range $RANGE{$NG(a)} {
+		get := func() int { return v }
+		bump := func() { v += 100 }
+		k, v := 1000, v*10
+		bump()
+		tr.Ev(1, get(), v, k)
+		res += get() + v + k
+	}
+	return
+}`, entries: []*Entry{callEntry("$NC", 1, nil)}},
+	{name: "range-define-redeclared-with-new-name-in-generator", decls: baseGen + `
+$GEN{$NH(a int)}{int}{
+	for v := range $RANGE{$NG(a)} {
+		get := func() int { return v }
+		bump := func() { v += 100 }
+		v, k := v*10, 1000
+		bump()
+		$YIELD{get()}
+		$YIELD{v + k}
+	}
+	$RET
+}`, entries: []*Entry{drive("$NH", "int", 1, nil)}},
+	{name: "range-assign-redeclared-with-new-name-pointer", decls: baseGen + `
+func $NC(a int) (res int) {
+	var v int
+	for v = range $RANGE{$NG(a)} {
+		p := &v
+		v, k := v+1, 5
+		*p += 10
+		res += v*k + *p
+	}
+	return res*1000 + v
+}`, entries: []*Entry{callEntry("$NC", 1, nil)}},
 	{name: "range-assign-field", decls: baseGen + `
 type $NS struct{ v, n int }
 
@@ -690,7 +727,15 @@ var injections = []injection{
 	{name: "yield-in-else-if-init", stmt: "if a > 5 {\n\t\ttr.Ev(1)\n\t} else if $YIELD{77}; a > 0 {\n\t\ttr.Ev(2)\n\t}"},
 	{name: "yield-in-go-statement-closure-call", stmt: "func() {\n\t\ttr.Ev(1)\n\t}()"},
 	{name: "yield-in-typeswitch-assign-rhs", stmt: "switch x := tr.Any(a).(type) {\n\tcase int:\n\t\t$YIELD{x}\n\tdefault:\n\t\t_ = x\n\t}"},
+	// the yield itself is the operand of defer: in the bare host it is the generator's ONLY yield
+	{name: "defer-yield-call", stmt: "defer $YIELD{5}\n\ttr.Ev(1, a)"},
+	{name: "defer-closure-yielding", stmt: "defer func() {\n\t\t$YIELD{6}\n\t}()\n\ttr.Ev(1, a)"},
+	// a range the compiler leaves native (pointer to array), with its own break/continue, as a trivial statement
+	{name: "range-over-pointer-to-array-trivial-break-continue", stmt: "arr := [4]int{4, 5, 6, 7}\n\tfor i, v := range &arr {\n\t\tif i == 1 {\n\t\t\tcontinue\n\t\t}\n\t\tif i == 3 {\n\t\t\tbreak\n\t\t}\n\t\ttr.Ev(1, i, v)\n\t}\n\ttr.Ev(2)"},
 	// negative controls: inside a nested plain closure these constructs must be accepted and preserved
+	{name: "control-native-range-break-continue-in-closure", control: true, stmt: "func() {\n\t\tarr := [4]int{1, 2, 3, 4}\n\t\tfor i, v := range &arr {\n\t\t\tif i == 0 {\n\t\t\t\tcontinue\n\t\t\t}\n\t\t\tif v == 4 {\n\t\t\t\tbreak\n\t\t\t}\n\t\t\ttr.Ev(1, i, v)\n\t\t}\n\t}()"},
+	{name: "control-native-range-break-in-closure-returning-any", control: true, stmt: "tr.Ev(1, func() any {\n\t\tn := 0\n\t\tarr := [4]int{1, 2, 3, 4}\n\t\tfor _, v := range &arr {\n\t\t\tif v == 3 {\n\t\t\t\tbreak\n\t\t\t}\n\t\t\tn += v\n\t\t}\n\t\treturn n\n\t}())"},
+	{name: "control-labelled-range-plain-break-in-closure", control: true, stmt: "func() {\n\touter:\n\t\tfor i, v := range []int{5, 6, 7} {\n\t\t\tif i == 2 {\n\t\t\t\tbreak\n\t\t\t}\n\t\t\tfor j := 0; j < 2; j++ {\n\t\t\t\tif j == 1 {\n\t\t\t\t\tcontinue outer\n\t\t\t\t}\n\t\t\t\ttr.Ev(1, i, v, j)\n\t\t\t}\n\t\t}\n\t}()"},
 	{name: "control-defer-in-closure", control: true, stmt: "func() {\n\t\tdefer tr.Ev(1, a)\n\t\ttr.Ev(2)\n\t}()"},
 	{name: "control-labels-in-closure", control: true, stmt: "func() {\n\touter:\n\t\tfor i := 0; i < 2; i++ {\n\t\t\tfor j := 0; j < 2; j++ {\n\t\t\t\tif j == 1 {\n\t\t\t\t\tcontinue outer\n\t\t\t\t}\n\t\t\t\ttr.Ev(1, i, j)\n\t\t\t}\n\t\t}\n\t}()"},
 	{name: "control-select-in-closure", control: true, stmt: "func() {\n\t\tch := tr.Chan(7)\n\t\tselect {\n\t\tcase v := <-ch:\n\t\t\ttr.Ev(1, v)\n\t\t}\n\t}()"},
